@@ -1,6 +1,7 @@
 package props
 
 import (
+	"strconv"
 	"fmt"
 	"os"
 	"sort"
@@ -106,6 +107,7 @@ func runActScript(script string, srvArgs ...string) (string, *fw.OracleFailure) 
 	calls := map[string]*actCall{}
 	var order []string
 	hbSent, hbAnswered := 0, 0
+	bursts, burstWant, burstGot := 0, 0, 0
 	termSerial := uint16(100)
 	mark := srv.Len()
 	fail := func(sig, msg string) (string, *fw.OracleFailure) {
@@ -158,6 +160,45 @@ func runActScript(script string, srvArgs ...string) (string, *fw.OracleFailure) 
 			return fail("server/died", fmt.Sprintf("server process exited with code %d during the scenario: %s", code, lastLines(tail, 6)))
 		}
 		switch {
+		case tok == "J0": // join with a message that gets no reply (a terminal general response): the first command then carries platform serial 0
+			c, err := sock.Dial(srv.Addr())
+			if err != nil {
+				return fail("server/refuses-connection", err.Error())
+			}
+			cl = c
+			jm := srv.Len()
+			_ = cl.Send(frames.Build(frames.H{ID: 0x0001, Phone: phone, Serial: termSerial}, []byte{0, 0, 0x80, 0x01, 0}))
+			termSerial++
+			if _, _, ok := srv.WaitForFrom(jm, func(e sock.Event) bool { return sock.Str(e, "event") == "join" && sock.Str(e, "key") == key }, 3*time.Second); !ok {
+				return fail("join/no-join", "a connection whose first message is a terminal general response did not join")
+			}
+		case strings.HasPrefix(tok, "B") || strings.HasPrefix(tok, "b"): // burst of n commands issued back to back
+			n, _ := strconv.Atoi(tok[1:])
+			bursts++
+			for i := 1; i <= n; i++ {
+				tag := fmt.Sprintf("y%d%d", bursts, i)
+				c := &actCall{tag: tag, serial: -1, started: time.Now()}
+				calls[tag] = c
+				order = append(order, tag)
+				_ = srv.Command(fmt.Sprintf("send %s %s %d 00 %d", tag, key, 0x8103, 8000))
+			}
+			if tok[0] == 'B' { // wait until every command frame has reached the terminal
+				burstWant += n
+				if cl != nil {
+					deadline := time.Now().Add(4 * time.Second)
+					got := 0
+					for got < n && time.Now().Before(deadline) {
+						for _, f := range cl.ReadFrames(1, 300*time.Millisecond) {
+							if h, _, ok := frames.Parse(f); ok && h.ID == 0x8103 {
+								got++
+							}
+						}
+					}
+					burstGot += got
+				}
+			} else {
+				time.Sleep(30 * time.Millisecond)
+			}
 		case tok == "J":
 			c, err := sock.Dial(srv.Addr())
 			if err != nil {
@@ -265,7 +306,14 @@ func runActScript(script string, srvArgs ...string) (string, *fw.OracleFailure) 
 		_, code, tail := srv.ExitInfo()
 		return fail("server/died", fmt.Sprintf("server process exited with code %d: %s", code, lastLines(tail, 6)))
 	}
-	return fmt.Sprintf("%s hb=%d/%d", strings.Join(parts, " "), hbAnswered, hbSent), orc
+	out := fmt.Sprintf("%s hb=%d/%d", strings.Join(parts, " "), hbAnswered, hbSent)
+	if burstWant > 0 {
+		out += fmt.Sprintf(" burst=%d/%d", burstGot, burstWant)
+		if burstGot != burstWant && orc == nil {
+			orc = &fw.OracleFailure{Sig: "active/command-not-delivered", Msg: fmt.Sprintf("%d of %d commands issued back to back for an online terminal reached it", burstGot, burstWant)}
+		}
+	}
+	return out, orc
 }
 
 func orDash(s string) string {
@@ -295,6 +343,9 @@ func genActScripts(r *fw.Rng, n int, withClose bool) []string {
 		fixed = append(fixed, "J,CaL,X", "J,CaL,CbL,X", "J,CaL,CbS,CcL,X", "J,CaS,T,X,CbL", "J,CaL,X,J,CbL,Rb", "J,CaL,Ra,X,CbL", "J,CaL,CbL,Ra,X")
 	}
 	out = append(out, fixed...)
+	// the first command of a connection carries platform serial 0 when the join message got no reply: a response that
+	// echoes a serial nobody waits for must not be taken for it
+	out = append(out, "J0,CaL,W,Ra", "J0,CaS,W,T", "J0,CaL,CbL,W,Rb,Ra")
 	for len(out) < n {
 		toks := []string{"J"}
 		live := true
@@ -356,6 +407,15 @@ func genC12(r *fw.Rng, tier string, emit func(fw.Case)) {
 	for _, s := range genActScripts(r, n, false) {
 		emit(fw.Case{Op: "act", Args: []string{s}})
 	}
+	// bursts of more commands than the connection's queue holds (own server instance with a slow write callback)
+	for _, s := range []string{"J,B4", "J,B6,H", "J,B8", "J,CaL,B5,Ra"} {
+		emit(fw.Case{Op: "act", Args: []string{s}})
+	}
+	if tier == "thorough" {
+		for i := 0; i < 12; i++ {
+			emit(fw.Case{Op: "act", Args: []string{fmt.Sprintf("J,B%d,H,B%d", 4+r.Intn(5), 4+r.Intn(5))}})
+		}
+	}
 }
 
 func genC13(r *fw.Rng, tier string, emit func(fw.Case)) {
@@ -365,6 +425,15 @@ func genC13(r *fw.Rng, tier string, emit func(fw.Case)) {
 	}
 	for _, s := range genActScripts(r, n, true) {
 		emit(fw.Case{Op: "act", Args: []string{s}})
+	}
+	// commands queued but not yet written when the terminal goes away: every one of them must come back
+	for _, s := range []string{"J,b4,X", "J,b6,X", "J,b8,X", "J,b5,X,J,CaL,Ra", "J,B5,X"} {
+		emit(fw.Case{Op: "act", Args: []string{s}})
+	}
+	if tier == "thorough" {
+		for i := 0; i < 12; i++ {
+			emit(fw.Case{Op: "act", Args: []string{fmt.Sprintf("J,b%d,X,J,b%d,X", 3+r.Intn(6), 3+r.Intn(6))}})
+		}
 	}
 	m := 6
 	if tier == "thorough" {
@@ -386,7 +455,12 @@ func execAct(c fw.Case) string {
 	var o *fw.OracleFailure
 	switch c.Op {
 	case "act":
-		res, o = runActScript(c.Args[0])
+		if strings.Contains(c.Args[0], "B") || strings.Contains(c.Args[0], "b") {
+			// bursts: a slow write callback lets the connection's queue (capacity 3) fill up
+			res, o = runActScript(c.Args[0], "-slow-write-ms", "40")
+		} else {
+			res, o = runActScript(c.Args[0])
+		}
 	case "actstress":
 		res, o = runActStress(c.Args[0])
 	default:
